@@ -210,3 +210,66 @@ func VerifC17_Validate() {
 	verifObserve("rejected", err != nil)
 	verifReach("C17/validate/end")
 }
+
+// presence rules: each kind of rule (required, required_if, required_if_not with one and with two alternatives,
+// conflicts) violated exactly once inside a nested object; the path leads to the property that carries the rule
+func VerifC17_PresenceRules() {
+	str := func() Type { return NewStringSchema(nil, nil, nil) }
+	auth := NewObjectSchema("Auth", map[string]*PropertySchema{
+		"user":     NewPropertySchema(str(), nil, true, nil, nil, nil, nil, nil),
+		"token":    NewPropertySchema(str(), nil, false, nil, []string{"password"}, nil, nil, nil),
+		"password": NewPropertySchema(str(), nil, false, nil, nil, nil, nil, nil),
+		"host":     NewPropertySchema(str(), nil, false, nil, nil, nil, nil, nil),
+		"port":     NewPropertySchema(NewIntSchema(nil, nil, nil), nil, false, []string{"host"}, nil, nil, nil, nil),
+		"socket":   NewPropertySchema(str(), nil, false, nil, nil, []string{"host"}, nil, nil),
+		"key":      NewPropertySchema(str(), nil, false, nil, []string{"cert", "ca"}, nil, nil, nil),
+		"cert":     NewPropertySchema(str(), nil, false, nil, nil, nil, nil, nil),
+		"ca":       NewPropertySchema(str(), nil, false, nil, nil, nil, nil, nil),
+	})
+	root := NewObjectSchema("Root", map[string]*PropertySchema{
+		"auth": NewPropertySchema(auth, nil, true, nil, nil, nil, nil, nil),
+	})
+	// a valid value: every rule satisfied
+	a := map[string]any{"user": "u", "token": "t", "cert": "c", "port": nondetInt64("port")}
+	fault := nondetChoice("fault", 6)
+	var want []string
+	switch fault {
+	case 1: // required
+		delete(a, "user")
+		want = []string{"auth", "user"}
+	case 2: // required_if: host is set, port is not
+		delete(a, "port")
+		a["host"] = "h"
+		want = []string{"auth", "port"}
+	case 3: // required_if_not with one alternative: neither token nor password
+		delete(a, "token")
+		want = []string{"auth", "token"}
+	case 4: // required_if_not with two alternatives: none of key, cert, ca
+		delete(a, "cert")
+		want = []string{"auth", "key"}
+	case 5: // conflicts: socket next to host
+		a["host"] = "h"
+		a["socket"] = "s"
+		want = []string{"auth", "socket"}
+	}
+	raw := map[string]any{"auth": a}
+	validate := nondetBool("validate")
+	var err error
+	if validate {
+		err = root.Validate(raw)
+	} else {
+		_, err = root.Unserialize(raw)
+	}
+	if fault == 0 {
+		verifAssert("C17/presence/valid-value-accepted", err == nil)
+	} else {
+		verifAssert("C17/presence/fault-rejected", err != nil)
+		if err != nil {
+			verifAssert("C17/presence/path-leads-to-the-property-whose-rule-is-violated", verifPathIs(err, want...))
+		}
+	}
+	verifObserve("rejected", err != nil)
+	verifReach("C17/presence/end")
+}
+
+func init() { verifRegister("VerifC17_PresenceRules", VerifC17_PresenceRules) }
